@@ -18,18 +18,10 @@
 (* correctly, and - in the variants - releases twice or forgets; TLC shows   *)
 (* that the properties separate them (QMem_*.cfg).  Use after release cannot *)
 (* be seen in the ledger; the same executions run under ASan.                *)
-EXTENDS Integers, Sequences, FiniteSets, TLC
+EXTENDS QMemDefs
 
 CONSTANTS Blocks,      \* block instances of the model
           Variant      \* "disciplined" | "double-release" | "leak"
-
-Neg(b) == 0 - b
-Apply(st, x) == IF st.err # "" THEN st
-                ELSE IF x > 0 THEN (IF x \in st.live THEN [st EXCEPT !.err = "instance id reused"] ELSE [st EXCEPT !.live = @ \cup {x}])
-                ELSE IF x < 0 THEN (IF Neg(x) \in st.live THEN [st EXCEPT !.live = @ \ {Neg(x)}] ELSE [st EXCEPT !.err = "release of a block that is not live"])
-                ELSE [st EXCEPT !.err = "release of an address that is not live"]
-RECURSIVE Fold(_, _, _)
-Fold(st, ev, i) == IF i > Len(ev) THEN st ELSE Fold(Apply(st, ev[i]), ev, i + 1)
 
 VARIABLES st, used, closed
 vars == <<st, used, closed>>
